@@ -54,6 +54,17 @@ TSearchOff ==
     /\ Ev.op = "search" /\ ~on /\ ~Ev.hit
     /\ StatsAre(hits, misses, evictions, Len(ents))
     /\ Done /\ UNCHANGED <<vars, on>>
+\* the typed front driven directly (C12): a store files the list under the request identity, whatever its length;
+\* an empty list is not stored; nothing happens while the cache is switched off
+TScPut == /\ Ev.op = "scput"
+          /\ IF on /\ Ev.nres > 0 THEN Put(Ev.id, Ev.ans) ELSE UNCHANGED vars
+          /\ StatsAre(hits', misses', evictions', Len(ents'))
+          /\ Done /\ UNCHANGED on
+TScGet == /\ Ev.op = "scget"
+          /\ IF on THEN Get(Ev.id) /\ last'.found = Ev.hit /\ (Ev.hit => last'.v = Ev.ans)      \* the value most recently stored
+                   ELSE ~Ev.hit /\ UNCHANGED vars
+          /\ StatsAre(hits', misses', evictions', Len(ents'))
+          /\ Done /\ UNCHANGED on
 TClear == /\ Ev.op \in {"invalidate", "update"} /\ Clear /\ StatsAre(0, 0, 0, 0) /\ Done /\ UNCHANGED on
 TEnable == /\ Ev.op = "enable" /\ on' = Ev.b /\ StatsAre(hits, misses, evictions, Len(ents)) /\ Done /\ UNCHANGED vars
 TStats == /\ Ev.op = "stats" /\ StatsAre(hits, misses, evictions, Len(ents)) /\ Done /\ UNCHANGED <<vars, on>>
@@ -73,7 +84,7 @@ TraceInit == /\ TLCSet(1, 0) /\ l = 1 /\ ph = 0 /\ on = TRUE
              /\ ents = <<>> /\ use = <<>> /\ ttl = 0 /\ cap = 1 /\ hits = 0 /\ misses = 0 /\ evictions = 0
              /\ last = Ret("init", NoKey, NoVal, FALSE, 0)
 TraceNext == /\ l <= Len(Trace)
-             /\ (TReset \/ TSearchGet \/ TSearchPut \/ TSearchEnd \/ TSearchOff \/ TClear \/ TEnable \/ TStats \/ TTick \/ TCleanup)
+             /\ (TReset \/ TSearchGet \/ TSearchPut \/ TSearchEnd \/ TSearchOff \/ TScPut \/ TScGet \/ TClear \/ TEnable \/ TStats \/ TTick \/ TCleanup)
 TraceSpec == TraceInit /\ [][TraceNext]_tvars
 \* every event is consumed: reaching the end violates this "invariant" (the search stops at the first witness)
 NotDone == l <= Len(Trace)
